@@ -655,8 +655,9 @@ pub enum ShaderStorage<'a, 'b> {
 // a reference to it. The goal is to avoid a heap allocation but the end
 // result is pretty ugly.
 pub fn choose_shader<'a, 'b, 'c>(ti: &Transform, src: &'b Source<'c>, alpha: f32, shader_storage: &'a mut ShaderStorage<'b, 'c>) -> &'a dyn Shader {
-    // XXX: clamp alpha
-    let alpha = (alpha * 255. + 0.5) as u32;
+    // clamp alpha to [0, 1]: the shaders' fixed point math overflows for anything larger
+    // (a NaN alpha ends up as 0)
+    let alpha = (alpha.max(0.).min(1.) * 255. + 0.5) as u32;
 
     *shader_storage = match src {
         Source::Solid(c) => {
